@@ -1643,6 +1643,7 @@ Qed.
 (* ------------------------------------------------------------------ the whole file after one deletion *)
 Section Main.
   Variable s : fspec.
+  Variable nested : bool.
   Hypothesis Hwf : wf s.
   Variable x : item.
   Hypothesis Hnotroot : is_root_link x = false.
@@ -1677,8 +1678,8 @@ Section Main.
   Qed.
 
   Theorem deletion_outcome :
-    (exists e, load fuel G0 f' = Err e /\ e <> OutOfFuel)
-    \/ (exists t, load fuel G0 f' = Ok t /\ agree_outside (negb (is_proj_attr x)) A t (abs s)).
+    (exists e, load fuel G0 nested f' = Err e /\ e <> OutOfFuel)
+    \/ (exists t, load fuel G0 nested f' = Ok t /\ agree_outside (negb (is_proj_attr x)) A t (abs s)).
   Proof.
     unfold load. cbn [top delete_item layout].
     assert (Htn : exists tn, node_at f' [] = Some tn /\ (is_proj_attr x = false -> n_attrs tn = fs_proj s)).
@@ -1909,6 +1910,7 @@ End DelNoErr.
 
 Section MainOptional.
   Variable s : fspec.
+  Variable nested : bool.
   Hypothesis Hwf : wf s.
   Variable x : item.
   Hypothesis Hnotroot : is_root_link x = false.
@@ -1921,7 +1923,7 @@ Section MainOptional.
   Local Notation f' := (delete_item (layout s) x).
   Local Notation A := (described_by s x).
 
-  Lemma load_ok_optional : exists t, load fuel G0 f' = Ok t.
+  Lemma load_ok_optional : exists t, load fuel G0 nested f' = Ok t.
   Proof.
     unfold load. cbn [top delete_item layout].
     assert (Htn : exists tn, node_at f' [] = Some tn).
@@ -1946,10 +1948,10 @@ Section MainOptional.
   Qed.
 
   Theorem optional_outcome :
-    exists t, load fuel G0 f' = Ok t /\ agree_outside (negb (is_proj_attr x)) A t (abs s).
+    exists t, load fuel G0 nested f' = Ok t /\ agree_outside (negb (is_proj_attr x)) A t (abs s).
   Proof.
     destruct load_ok_optional as [t0 E0].
-    destruct (deletion_outcome s Hwf x Hnotroot fuel Hfuel) as [[e [E _]]|[t [E H]]].
+    destruct (deletion_outcome s nested Hwf x Hnotroot fuel Hfuel) as [[e [E _]]|[t [E H]]].
     - rewrite E in E0. discriminate.
     - exists t. split; assumption.
   Qed.
@@ -1969,6 +1971,7 @@ Qed.
 (* ------------------------------------------------------------------ the intact file (the same induction, nothing deleted) *)
 Section Intact.
   Variable s : fspec.
+  Variable nested : bool.
   Hypothesis Hwf : wf s.
   Variable fuel : nat.
   Hypothesis Hfuel : depth (fs_root s) <= fuel.
@@ -2003,7 +2006,7 @@ Section Intact.
   Qed.
 
   Theorem intact_reads_back :
-    exists t, load fuel G0 f' = Ok t /\ t_proj t = fs_proj s /\ t_root t = U ru
+    exists t, load fuel G0 nested f' = Ok t /\ t_proj t = fs_proj s /\ t_root t = U ru
               /\ forall v, find_rec (U v) (t_ents t) = find_rec (U v) (t_ents (abs s)).
   Proof.
     unfold load. cbn [top layout node_at layout_at].
@@ -2036,3 +2039,222 @@ Section Intact.
       destruct Hno as [out E]. rewrite Eseq in E. discriminate.
   Qed.
 End Intact.
+
+(* ------------------------------------------------------------------ the Root link deleted, with the rebuild that first scans the child
+   containers ([nested = true], the repaired fetch_or_create_root): only the old root is attached to the new root *)
+Lemma NoDup_insertN n l : NoDup l -> ~ In n l -> NoDup (insertN n l).
+Proof.
+  induction l as [|m r IH]; simpl; intros Hnd Hn; [constructor; [intros []|constructor]|].
+  destruct (N.leb n m); [constructor; assumption|]. inversion Hnd as [|y l' Hnot Hnd']; subst. constructor.
+  - rewrite insertN_In. intros [E|H]; [subst; apply Hn; left; reflexivity | exact (Hnot H)].
+  - apply IH; [exact Hnd' | intros H; apply Hn; right; exact H].
+Qed.
+Lemma NoDup_sortN l : NoDup l -> NoDup (sortN l).
+Proof.
+  unfold sortN. induction l as [|m r IH]; simpl; intros H; [constructor|]. inversion H; subst.
+  apply NoDup_insertN; [apply IH; assumption|]. intros Hin. apply sortN_In in Hin. contradiction.
+Qed.
+Lemma NoDup_map_filter {X Y} (g : X -> Y) (p : X -> bool) l : NoDup (map g l) -> NoDup (map g (filter p l)).
+Proof.
+  induction l as [|e r IH]; simpl; intros H; [constructor|]. inversion H; subst. destruct (p e); simpl; [|apply IH; assumption].
+  constructor; [|apply IH; assumption]. intros Hin. apply H2. apply in_map_iff in Hin. destruct Hin as [y [E Hy]].
+  apply filter_In in Hy. destruct Hy as [Hy _]. rewrite <- E. apply in_map. exact Hy.
+Qed.
+Lemma NoDup_map_pair {X} (k : X) (l : list N) : NoDup l -> NoDup (map (fun u => (u, k)) l).
+Proof.
+  induction l as [|e r IH]; simpl; intros H; [constructor|]. inversion H; subst. constructor; [|apply IH; assumption].
+  intros Hin. apply in_map_iff in Hin. destruct Hin as [y [E Hy]]. inversion E; subst. contradiction.
+Qed.
+Lemma NoDup_app_intro {X} (l1 l2 : list X) : NoDup l1 -> NoDup l2 -> (forall y, In y l1 -> ~ In y l2) -> NoDup (l1 ++ l2).
+Proof.
+  induction l1 as [|e r IH]; simpl; intros H1 H2 Hd; [exact H2|]. inversion H1; subst. constructor.
+  - intros Hin. apply in_app_or in Hin. destruct Hin as [Hin|Hin]; [contradiction | apply (Hd e); [left; reflexivity | exact Hin]].
+  - apply IH; [assumption | assumption | intros y Hy; apply Hd; right; exact Hy].
+Qed.
+Lemma filter_unique {X} (p : X -> bool) (l : list X) (a : X) :
+  NoDup l -> In a l -> (forall b, In b l -> (p b = true <-> b = a)) -> filter p l = [a].
+Proof.
+  induction l as [|e r IH]; simpl; intros Hnd Ha Hp; [contradiction|]. inversion Hnd; subst.
+  destruct Ha as [Ha|Ha].
+  - subst e. assert (Hpa : p a = true) by (apply Hp; [left; reflexivity | reflexivity]). rewrite Hpa. f_equal.
+    apply filter_false. intros b Hb. destruct (p b) eqn:E; [|reflexivity].
+    assert (b = a) by (apply Hp; [right; exact Hb | exact E]). subst. contradiction.
+  - assert (Hpe : p e = false).
+    { destruct (p e) eqn:E; [|reflexivity]. assert (e = a) by (apply Hp; [left; reflexivity | exact E]). subst. contradiction. }
+    rewrite Hpe. apply IH; [assumption | assumption | intros b Hb; apply Hp; right; exact Hb].
+Qed.
+
+Lemma depth_subtree r : forall n, depth r <= n -> forall t, In t (subtrees r) -> depth t <= depth r.
+Proof.
+  intros n. revert r. induction n as [|n IH]; intros r Hd t Ht.
+  - destruct r; simpl in Hd; lia.
+  - destruct r as [u k a ty d p cs kids] eqn:Er. simpl in Ht. destruct Ht as [Ht|Ht]; [subst; lia|].
+    apply in_flat_map in Ht. destruct Ht as [c [Hc Ht]].
+    assert (depth c < depth r) by (apply depth_kid; subst r; exact Hc).
+    assert (depth t <= depth c) by (apply IH; [subst r; lia | exact Ht]). subst r. lia.
+Qed.
+Lemma parent_or_self r : forall n, depth r <= n -> forall t, In t (subtrees r) -> t = r \/ exists p, In p (subtrees r) /\ In t (et_kids p).
+Proof.
+  intros n. revert r. induction n as [|n IH]; intros r Hd t Ht.
+  - destruct r; simpl in Hd; lia.
+  - destruct r as [u k a ty d p cs kids] eqn:Er. simpl in Ht. destruct Ht as [Ht|Ht]; [left; symmetry; exact Ht|]. right.
+    apply in_flat_map in Ht. destruct Ht as [c [Hc Ht]].
+    assert (depth c < depth r) by (apply depth_kid; subst r; exact Hc).
+    destruct (IH c ltac:(subst r; lia) t Ht) as [E|[p0 [Hp0 Hk]]].
+    + subst t. exists r. subst r. split; [apply subtrees_self | exact Hc].
+    + exists p0. split; [|exact Hk]. simpl. right. apply in_flat_map. exists c. split; assumption.
+Qed.
+
+Section RootGone.
+  Variable s : fspec.
+  Hypothesis Hwf : wf s.
+  Variable fuel : nat.
+  Hypothesis Hfuel : depth (fs_root s) <= fuel.
+
+  Local Notation root := (fs_root s).
+  Local Notation ru := (et_uid (fs_root s)).
+  Local Notation x := (ILink [] KRoot).
+  Local Notation f' := (delete_item (layout s) (ILink [] KRoot)).
+  Local Notation newp := (Some (Fresh [KRoot])).
+
+  Lemma rg_described : described_by s x = [].
+  Proof. reflexivity. Qed.
+
+  Lemma rg_view t p : In t (subtrees root) -> view f' t p = Ok (Some (rec_of s false t p)).
+  Proof. intros Ht. unfold view. apply (local_unchanged s Hwf x f' eq_refl (Hnode_del s x) t Ht p). intros []. Qed.
+
+  Lemma rg_keep t c : keep_of x t c = true.
+  Proof. unfold keep_of, cont_removed, entry_removed. cbn. destruct (et_kind t); reflexivity. Qed.
+
+  Lemma rg_list t : In t (subtrees root) -> fetch_children G0 f' (U (et_uid t)) (et_kind t) = Ok (map key_of (et_kids t)).
+  Proof.
+    intros Ht. rewrite (P_list2 s Hwf x f' eq_refl (Hnode_del s x) t Ht). f_equal.
+    induction (map key_of (et_kids t)) as [|c r IH]; simpl; [reflexivity|]. rewrite rg_keep, IH. reflexivity.
+  Qed.
+
+  Lemma rg_uuids k : fetch_uuids G0 f' k = Ok (map (fun u => (u, k)) (ents_of_kind s k)).
+  Proof.
+    unfold fetch_uuids. simpl g_fu. rewrite glookup_ok_absorb by reflexivity. cbn [bind]. f_equal.
+    unfold sub. rewrite (D_getlink s x f' (Hnode_del s x)). cbn [top delete_item layout layout_at item_addr].
+    assert (E : addr_eqb [] [] && link_hits x (flat_key k) = false) by (destruct k; reflexivity). rewrite E.
+    assert (El : lookup (flat_key k) (n_links (top_node s)) = Some [flat_key k]) by (destruct k; reflexivity). rewrite El.
+    rewrite (Hnode_del s x). cbn [item_addr].
+    assert (Ea : addr_eqb [] [flat_key k] = false) by reflexivity. rewrite Ea. rewrite L_flat.
+    unfold group_node. cbn [n_links]. induction (ents_of_kind s k) as [|u r IH]; simpl; [reflexivity|]. rewrite IH. reflexivity.
+  Qed.
+
+  Lemma in_ents_iff k u : In u (ents_of_kind s k) <-> exists t, In t (subtrees root) /\ et_kind t = k /\ et_uid t = u.
+  Proof.
+    unfold ents_of_kind. rewrite sortN_In, in_map_iff. split.
+    - intros [t [E Ht]]. apply filter_In in Ht. destruct Ht as [Ht Ek]. apply ekind_eqb_eq in Ek. exists t. auto.
+    - intros [t [Ht [Ek Eu]]]. exists t. split; [exact Eu|]. apply filter_In. split; [exact Ht | apply ekind_eqb_eq; exact Ek].
+  Qed.
+
+  Lemma key_inj t1 t2 : In t1 (subtrees root) -> In t2 (subtrees root) -> et_uid t1 = et_uid t2 -> t1 = t2.
+  Proof. intros H1 H2 E. apply (NoDup_map_inj et_uid (subtrees root)); [exact (wf_nodup s Hwf) | exact H1 | exact H2 | exact E]. Qed.
+
+  Lemma rg_nested l :
+    (forall c, In c l -> exists t, In t (subtrees root) /\ key_of t = c) ->
+    exists nest, nested_of G0 f' l = Ok nest
+                 /\ forall d, In d nest <-> exists t, In (key_of t) l /\ In t (subtrees root) /\ In d (map key_of (et_kids t)).
+  Proof.
+    induction l as [|c r IH]; intros Hl.
+    - exists []. split; [reflexivity|]. intros d. split; [intros [] | intros [t [[] _]]].
+    - destruct (Hl c (or_introl eq_refl)) as [t [Ht Ek]].
+      destruct (IH (fun c0 H0 => Hl c0 (or_intror H0))) as [nb [Enb Hnb]].
+      exists (map key_of (et_kids t) ++ nb). split.
+      + simpl. rewrite <- Ek. unfold key_of at 1 2. cbn [fst snd]. rewrite (rg_list t Ht). cbn [bind]. rewrite Enb. reflexivity.
+      + intros d. rewrite in_app_iff, Hnb. split.
+        * intros [Hd|[t0 [H1 [H2 H3]]]].
+          -- exists t. split; [left; symmetry; exact Ek|]. split; assumption.
+          -- exists t0. split; [right; exact H1|]. split; assumption.
+        * intros [t0 [[E|H1] [H2 H3]]].
+          -- left. assert (t0 = t).
+             { apply key_inj; [exact H2 | exact Ht|]. rewrite <- Ek in E. unfold key_of in E. inversion E. reflexivity. }
+             subst t0. exact H3.
+          -- right. exists t0. split; [exact H1|]. split; assumption.
+  Qed.
+
+  Lemma root_not_kid p : In p (subtrees root) -> ~ In root (et_kids p).
+  Proof.
+    intros Hp Hk. assert (depth root < depth p) by (apply depth_kid; exact Hk).
+    assert (depth p <= depth root) by (apply (depth_subtree root (depth root)); [lia | exact Hp]). lia.
+  Qed.
+
+  Lemma rg_tops gs os nest :
+    gs = map (fun u => (u, KGroup)) (ents_of_kind s KGroup) -> os = map (fun u => (u, KObject)) (ents_of_kind s KObject) ->
+    (forall d, In d nest <-> exists t, In (key_of t) (gs ++ os) /\ In t (subtrees root) /\ In d (map key_of (et_kids t))) ->
+    filter (fun c : N * ekind => negb (existsb (fun d : N * ekind => N.eqb (fst d) (fst c)) nest)) (gs ++ os) = [(ru, KGroup)].
+  Proof.
+    intros Eg Eo Hn.
+    assert (Hin_go : forall t, In t (subtrees root) -> et_kind t <> KData -> In (key_of t) (gs ++ os)).
+    { intros t Ht Hk. apply in_or_app. unfold key_of. destruct (et_kind t) eqn:Ek; [left|right|congruence]; subst;
+        apply in_map_iff; exists (et_uid t); (split; [reflexivity|]); apply in_ents_iff; exists t; auto. }
+    assert (Hgo_in : forall c, In c (gs ++ os) -> exists t, In t (subtrees root) /\ key_of t = c).
+    { intros c Hc. apply in_app_or in Hc. destruct Hc as [Hc|Hc]; subst; apply in_map_iff in Hc; destruct Hc as [u [E Hu]];
+        apply in_ents_iff in Hu; destruct Hu as [t [Ht [Ek Eu]]]; exists t; (split; [exact Ht|]); unfold key_of; rewrite Ek, Eu; exact E. }
+    apply filter_unique.
+    - subst. apply NoDup_app_intro.
+      + apply NoDup_map_pair. unfold ents_of_kind. apply NoDup_sortN. apply NoDup_map_filter. exact (wf_nodup s Hwf).
+      + apply NoDup_map_pair. unfold ents_of_kind. apply NoDup_sortN. apply NoDup_map_filter. exact (wf_nodup s Hwf).
+      + intros y H1 H2. apply in_map_iff in H1. apply in_map_iff in H2. destruct H1 as [u1 [E1 _]], H2 as [u2 [E2 _]]. subst y. discriminate.
+    - pose proof (Hin_go root (subtrees_self root)) as H. unfold key_of in H. rewrite (wf_root_kind s Hwf) in H. apply H. discriminate.
+    - intros b Hb. destruct (Hgo_in b Hb) as [t [Ht Ek]]. subst b. rewrite negb_true_iff. split.
+      + intros Hex. destruct (parent_or_self root (depth root) (le_n _) t Ht) as [E|[p [Hp Hk]]].
+        * subst t. unfold key_of. rewrite (wf_root_kind s Hwf). reflexivity.
+        * exfalso. assert (Hd : In (key_of t) nest).
+          { apply Hn. exists p. split; [|split; [exact Hp | apply in_map; exact Hk]].
+            apply Hin_go; [exact Hp|]. intros Ekd. destruct (ent_ok_parts s Hwf p Hp) as [_ [_ [Hdd _]]]. destruct (Hdd Ekd) as [Hnil _].
+            rewrite Hnil in Hk. contradiction. }
+          assert (Hex' : existsb (fun d : N * ekind => N.eqb (fst d) (fst (key_of t))) nest = true).
+          { apply existsb_exists. exists (key_of t). split; [exact Hd | apply N.eqb_refl]. }
+          rewrite Hex' in Hex. discriminate.
+      + intros E. destruct (existsb (fun d : N * ekind => N.eqb (fst d) (fst (key_of t))) nest) eqn:Hex; [|reflexivity]. exfalso.
+        apply existsb_exists in Hex. destruct Hex as [d [Hd Ed]]. apply N.eqb_eq in Ed.
+        apply Hn in Hd. destruct Hd as [p [_ [Hp Hd]]]. apply in_map_iff in Hd. destruct Hd as [c [Ec Hc]]. subst d.
+        unfold key_of in Ed, E. cbn [fst] in Ed. inversion E as [[Eu Ekk]].
+        assert (c = root).
+        { apply key_inj; [apply (kid_subtree s p Hp c Hc) | apply subtrees_self | congruence]. }
+        subst c. exact (root_not_kid p Hp Hc).
+  Qed.
+
+  Theorem root_link_outcome :
+    exists t, load fuel G0 true f' = Ok t /\ agree_outside true [ru] t (abs s).
+  Proof.
+    unfold load. cbn [top delete_item layout].
+    assert (Etn : node_at f' [] = Some (del_in_node x (top_node s))) by reflexivity.
+    cbn [node_at delete_item layout] in Etn |- *. rewrite Etn.
+    assert (Ev : load_entity G0 f' (Fresh [KRoot; KRoot]) None None = Ok None).
+    { rewrite load_root_G0. unfold sub. rewrite (D_getlink s x f' (Hnode_del s x)). reflexivity. }
+    cbn [node_at delete_item layout top] in Ev. rewrite Ev. cbn [bind]. simpl absorbs. cbv iota.
+    pose proof (rg_uuids KGroup) as Eg. pose proof (rg_uuids KObject) as Eo.
+    cbn [node_at delete_item layout top] in Eg, Eo. rewrite Eg, Eo. cbn [bind].
+    set (gs := map (fun u => (u, KGroup)) (ents_of_kind s KGroup)). set (os := map (fun u => (u, KObject)) (ents_of_kind s KObject)).
+    assert (Hgo : forall c, In c (gs ++ os) -> exists t, In t (subtrees root) /\ key_of t = c).
+    { intros c Hc. apply in_app_or in Hc. destruct Hc as [Hc|Hc]; apply in_map_iff in Hc; destruct Hc as [u [E Hu]];
+        apply in_ents_iff in Hu; destruct Hu as [t [Ht [Ek Eu]]]; exists t; (split; [exact Ht|]); unfold key_of; rewrite Ek, Eu; exact E. }
+    destruct (rg_nested (gs ++ os) Hgo) as [nest [En Hn]]. cbn [node_at delete_item layout top] in En. rewrite En. cbn [bind].
+    rewrite (rg_tops gs os nest eq_refl eq_refl Hn).
+    (* the old root, loaded as a group under the new root *)
+    assert (Hk : key_of root = (ru, KGroup)) by (unfold key_of; rewrite (wf_root_kind s Hwf); reflexivity).
+    pose proof (core s f' [] (fetch_children_fresh f') (subtrees root) (scope_closed s)
+                     (fun t Ht => local_ok_del s Hwf x f' eq_refl (Hnode_del s x) t Ht)
+                     (fun t Ht => list_ok_del s Hwf x f' eq_refl (Hnode_del s x) t Ht)
+                     (fun t Ht Ek => proj1 (proj1 (proj2 (proj2 (ent_ok_parts s Hwf t Ht))) Ek))
+                     fuel root Hfuel (subtrees_self root) (wf_nodup s Hwf) newp [Fresh [KRoot]]) as K.
+    assert (Hreg : forall v, In v (uids root) -> ~ In (U v) [Fresh [KRoot]]) by (intros v _ [E|[]]; discriminate).
+    specialize (K Hreg). rewrite Hk in K.
+    destruct (core_noerr s f' [] (subtrees root) (scope_closed s)
+                (fun t Ht => local_ok_del s Hwf x f' eq_refl (Hnode_del s x) t Ht)
+                (fun t Ht => list_ok_del s Hwf x f' eq_refl (Hnode_del s x) t Ht)
+                (fun t p e Ht Hv => ltac:(rewrite (rg_view t p Ht) in Hv; discriminate))
+                fuel root Hfuel (subtrees_self root) newp [Fresh [KRoot]]) as [[recs reg'] El].
+    rewrite Hk in El. cbn [node_at delete_item layout top] in El, K. cbn [seq_load]. cbn [new_root r_uid]. rewrite El in K |- *.
+    destruct K as [Kf _].
+    eexists. split; [reflexivity|]. split.
+    - intros _. reflexivity.
+    - intros v Hv. cbn [t_ents abs find_rec new_root r_uid uid_eqb]. rewrite app_nil_r.
+      rewrite (Kf v (fun H => H)). rewrite flat_recs_unfold. cbn [find_rec rec_of r_uid uid_eqb].
+      destruct (N.eqb ru v) eqn:E; [|reflexivity]. apply N.eqb_eq in E. exfalso. apply Hv. left. exact E.
+  Qed.
+End RootGone.
